@@ -369,7 +369,43 @@ def check_wrap(fx, R, gq, dim):
             if lv is None or not lv.name.startswith('wrappredCellIndexes[') and '[' not in lv.name:
                 continue
             k = int(lv.name[lv.name.index('[') + 1:-1])
-            rhs = C.ev(ap[1])
+            try:
+                rhs = C.ev(ap[1])
+            except sym.Unsupported as u_:
+                # not one symbolic formula (a helper with a fast path, a conditional): the wrapped index is evaluated (E-STEP) for every grid size of the quantifier (1..8 cells), every offset and every
+                # logical index; it must be (logical + offset) mod n
+                from .. import mini
+                from .C20 import deep_unwrap as _du
+                badw = whyw = None
+                nw = 0
+                for n_ in range(1, 9):
+                    for off_ in range(n_):
+                        for c_ in range(n_):
+                            S_ = mini.Step(_du)
+                            S_.fallback = mini.inliner(fx, S_)
+                            try:
+                                got_ = S_.ev(_du(sx(ap[1])), {'cellIndexes': c_, 'this.indexOffsetsAlongAxes_': off_, 'this.numberOfCellsAlongAxes_': n_, 'this.numberOfCellsAlongAxesMinusOne_': n_ - 1})
+                            except (mini.Unsupported, TypeError) as e_:
+                                whyw = str(e_)[:120]
+                                break
+                            nw += 1
+                            if got_ != (c_ + off_) % n_:
+                                badw = badw or (n_, off_, c_, got_)
+                        if whyw:
+                            break
+                    if whyw:
+                        break
+                if whyw:
+                    R.undecided('O1', '%s::wrapCellIndexes_:axis%d' % (cname, k), '%s; not evaluable either: %s' % (u_, whyw))
+                elif badw:
+                    R.violated('O1', '%s::wrapCellIndexes_:value' % cname.split('<')[0], 'evaluating the wrapped index of axis %d as written (`%s`) on a grid of %d cells along the axis with offset %d: the logical index %d is '
+                               'mapped to storage index %s; (logical + offset) mod n is %d.  Grids of 1..8 cells per axis are inside the quantifier: on that size two logical cells share a storage cell, so surviving '
+                               'cells do not read their value and entering cells do not read the empty value' % (k, pp(ap[1])[:120], badw[0], badw[1], badw[2], badw[3], (badw[2] + badw[1]) % badw[0]),
+                               fx.rel(s['loc']), 'E-STEP')
+                else:
+                    R.holds('O1', '%s::wrapCellIndexes_:axis%d' % (cname, k), 'evaluated on every (size 1..8, offset, logical index): (logical + offset) mod n (%d cells)' % nw, fx.rel(s['loc']), 'E-STEP')
+                seen[k] = (True, None, s['loc'])
+                continue
             want = sp.Mod(sp.Symbol('cellIndexes[%d]' % k, integer=True) + sp.Symbol('indexOffsetsAlongAxes_[%d]' % k, integer=True),
                           sp.Symbol('numberOfCellsAlongAxes_[%d]' % k, integer=True))
             seen[k] = (rhs == want, rhs, s['loc'])
@@ -390,6 +426,8 @@ def check_wrap(fx, R, gq, dim):
                 R.violated('O1', '%s::wrapCellIndexes_:axis%d' % (cname, k), 'axis %d is never wrapped (no assignment to the wrapped index %d)' % (k, k), fx.rel(f['loc']), 'E-SIB')
         else:
             ok, rhs, loc = seen[k]
+            if rhs is None and ok:
+                continue                      # judged by value above
             R.check(ok, 'O1', '%s::wrapCellIndexes_:axis%d' % (cname, k),
                     'wrapped[%d] = %s, expected (logical[%d] + offset[%d]) mod n[%d]' % (k, rhs, k, k, k), 'physical = (logical + offset) mod n, same axis in all subscripts',
                     fx.rel(loc), 'E-SIB')
@@ -1084,6 +1122,21 @@ def check_block(fx, R, C, cname, f, k, dim, blk):
         h = fx.functions.get(rn['fk'])
         first = C.ev(rn['args'][0]) if True else None
         if h is not None and h.get('body') is not None and first == offk:
+            # the helper must be handed THIS axis' translation and THIS axis' number of cells
+            try:
+                second, third = C.ev(rn['args'][1]), C.ev(rn['args'][2])
+            except sym.Unsupported:
+                second = third = None
+            if isinstance(third, sp.Basic) and isinstance(second, sp.Basic) and (third != nk or second != dk):
+                other_n = isinstance(third, sp.Symbol) and third != nk and 'numberOfCells' in third.name
+                other_d = isinstance(second, sp.Symbol) and second != dk and 'indexOffset' in second.name
+                if other_n or other_d:
+                    R.violated('O2', '%s:offset-helper:wrong-axis' % inst.split(':axis')[0], 'the offset of axis %d is updated with %s(%s): %s.  The accumulated offset is reduced modulo the size of ANOTHER axis - on a grid '
+                               'whose sizes differ along the two axes the reported offset is not the accumulated offset modulo the grid size (4x3: three translations by +1 along this axis report 3 instead of 0), and '
+                               'after the next wrap surviving cells are read from other positions; square grids are unaffected' % (
+                                   k, h['name'], ', '.join(pp(a_) for a_ in rn['args']), 'its last argument is `%s`, not the number of cells along axis %d' % (third, k) if other_n else
+                                   'its second argument is `%s`, not the translation along axis %d' % (second, k)), fx.rel(o['loc']), 'E-SIB')
+                    return
             from .. import mini
             from .C20 import deep_unwrap
             pn = [p_['name'] for p_ in h['params']]
